@@ -167,10 +167,14 @@ func doGetHead(c *vlib.Ctx, sc scenario, expected peer.ID) callResult {
 		okTerm = coqCid(r.cid)
 	}
 	rp := sc.replay("gethead", expected)
+	rp.ClientOpt = curOpt
+	if curOpt != "" {
+		c.Count("gethead-option:" + curOpt)
+	}
 	c.Case("gethead", fmt.Sprintf("(GetHeadCase %s %s %s)", optPeerTerm(expected), resp, obsTerm(r.kind, okTerm, 0)),
-		map[string]interface{}{"scenario": sc.name, "key_type": sc.keyType, "expected": peerStr(expected), "observed": r.kind, "replay": rp})
+		map[string]interface{}{"scenario": sc.name, "key_type": sc.keyType, "expected": peerStr(expected), "client_options": curOpt, "observed": r.kind, "replay": rp})
 	if v != nil && strings.HasPrefix(v.sigTerm, "(WSSig") {
-		c.Nontrivial(fmt.Sprintf("gethead/%s/%s/%s", sc.keyType, sc.name, optPeerTerm(expected)))
+		c.Nontrivial(fmt.Sprintf("gethead/%s/%s/%s/%s", curOpt, sc.keyType, sc.name, optPeerTerm(expected)))
 	}
 	if sc.name == "Honest" || sc.name == "ResignBy:other-type" {
 		obsS := r.kind + " " + r.err
@@ -180,21 +184,24 @@ func doGetHead(c *vlib.Ctx, sc scenario, expected peer.ID) callResult {
 		sampleOnce(c, "gethead-"+r.kind+"-"+sc.name, map[string]interface{}{"level": "GetHead", "scenario": sc.name, "key_type": sc.keyType, "expected": peerStr(expected), "observed": obsS})
 	}
 	who := "expected=" + peerStr(expected)
+	if curOpt != "" {
+		who += ", client options " + curOpt
+	}
 	if r.kind == "panic" {
-		c.Fail("gethead:panic:"+sc.name, "GetHead panicked: "+r.err, rp)
+		c.Fail("gethead"+optTag()+":panic:"+sc.name, "GetHead panicked: "+r.err, rp)
 		return r
 	}
 	// the property, both directions
 	want := acc && (expected == "" || psigner == expected)
 	switch {
 	case r.kind == "ok" && !acc:
-		c.Fail("gethead:accepted-unverified:"+sc.name+":"+sc.keyType, "GetHead returned a CID for a response that carries no signature verifying under its own key over cid||topic ("+who+")", rp)
+		c.Fail("gethead"+optTag()+":accepted-unverified:"+sc.name+":"+sc.keyType, "GetHead returned a CID for a response that carries no signature verifying under its own key over cid||topic ("+who+")", rp)
 	case r.kind == "ok" && !want:
-		c.Fail("gethead:accepted-other-signer:"+sc.name+":"+sc.keyType, fmt.Sprintf("GetHead returned a CID signed by %s, %s", psigner, who), rp)
+		c.Fail("gethead"+optTag()+":accepted-other-signer:"+sc.name+":"+sc.keyType, fmt.Sprintf("GetHead returned a CID signed by %s, %s", psigner, who), rp)
 	case r.kind == "ok" && !r.cid.Equals(pc):
-		c.Fail("gethead:other-cid:"+sc.name+":"+sc.keyType, fmt.Sprintf("GetHead returned %s, the signed CID is %s", r.cid, pc), rp)
+		c.Fail("gethead"+optTag()+":other-cid:"+sc.name+":"+sc.keyType, fmt.Sprintf("GetHead returned %s, the signed CID is %s", r.cid, pc), rp)
 	case r.kind != "ok" && want:
-		c.Fail("gethead:rejected-valid:"+sc.name+":"+sc.keyType, "GetHead rejected a head validly signed by the expected publisher: "+r.err+" ("+who+")", rp)
+		c.Fail("gethead"+optTag()+":rejected-valid:"+sc.name+":"+sc.keyType, "GetHead rejected a head validly signed by the expected publisher: "+r.err+" ("+who+")", rp)
 	}
 	// the scenario's own expectation (cross-check of the oracle above)
 	if sc.signer != nil && expected == sc.signer.ID {
@@ -207,11 +214,11 @@ func checkExpectation(c *vlib.Ctx, sc scenario, level string, r callResult, rp *
 	switch sc.expect {
 	case "accept":
 		if r.kind != "ok" || !r.cid.Equals(sc.wantCid) {
-			c.Fail(level+":"+sc.sig, fmt.Sprintf("honest head not accepted: %s %s %s", r.kind, cidStr(r.cid), r.err), rp)
+			c.Fail(level+optTag()+":"+sc.sig, fmt.Sprintf("honest head not accepted: %s %s %s", r.kind, cidStr(r.cid), r.err), rp)
 		}
 	case "reject":
 		if r.kind == "ok" {
-			c.Fail(level+":"+sc.sig, "accepted: "+sc.name, rp)
+			c.Fail(level+optTag()+":"+sc.sig, "accepted: "+sc.name, rp)
 		}
 	case "reject-or-same":
 		if r.kind == "ok" {
@@ -431,4 +438,12 @@ func chainTerm() string {
 		t[i] = coqCid(chain[len(chain)-1-i])
 	}
 	return vlib.CoqList(t)
+}
+
+// optTag marks failure signatures of runs with non-default client options
+func optTag() string {
+	if curOpt == "" {
+		return ""
+	}
+	return "[" + curOpt + "]"
 }
